@@ -101,6 +101,7 @@ def construct_expression_tree(
                 )
             },
             repeating_variables=repeating_arguments,
+            arguments=expression_ast[1:],
         )
         return AnyNode(id=str(new_function), value=new_function)
 
